@@ -463,6 +463,16 @@ impl<'a> BtorGen<'a> {
             if self.rng.chance(2, 3) {
                 self.gen_const(dw);
             }
+            // often a second array sort (different index or element sort), so that array-valued lines can be
+            // annotated with a wrong ARRAY sort by the sort_id / array_sort mutations
+            if self.rng.chance(1, 2) {
+                let t2 = if self.rng.chance(1, 2) { Ty::Arr(iw, if dw == 1 { 2 } else { dw - 1 }) } else { Ty::Arr(iw + 1, dw) };
+                if self.rng.chance(1, 2) {
+                    self.decl("state", t2);
+                } else {
+                    self.sort_id(t2);
+                }
+            }
         }
         for _ in 0..self.rng.range(0, 3) {
             let w = self.pick_width();
@@ -596,7 +606,27 @@ pub fn mutate_once(rng: &mut Rng, lines: &mut Vec<String>) -> &'static str {
     let pick_id = |rng: &mut Rng, pool: &Vec<String>| -> String {
         if pool.is_empty() || rng.chance(1, 6) { format!("{}", rng.below(40)) } else { rng.pick(pool).clone() }
     };
-    let kind = rng.below(22);
+    let kind = rng.below(26);
+    if kind >= 24 {
+        // the value operand of an init / next line is replaced by another node of the file
+        let tl: Vec<Vec<String>> = lines.iter().map(|l| toks(l)).collect();
+        let c: Vec<usize> = (0..tl.len()).filter(|i| tl[*i].len() > 4 && (tl[*i][1] == "init" || tl[*i][1] == "next")).collect();
+        let ids: Vec<String> = tl.iter().filter(|t| t.len() > 2 && !matches!(t[1].as_str(), "sort" | "init" | "next" | "output" | "bad" | "constraint")).map(|t| t[0].clone()).collect();
+        if c.is_empty() || ids.is_empty() {
+            return "noop";
+        }
+        let li = *rng.pick(&c);
+        let mut t = tl[li].clone();
+        t[4] = rng.pick(&ids).clone();
+        if rng.chance(1, 6) {
+            t[1] = if t[1] == "init" { "next".to_string() } else { "init".to_string() };
+        }
+        lines[li] = t.join(" ");
+        return "init_next_value";
+    }
+    if kind >= 22 {
+        return mutate_array_sort(rng, lines);
+    }
     // token-level mutations need a line with at least one token
     if t.is_empty() && kind >= 4 && kind != 19 && kind != 20 {
         return "noop";
@@ -855,6 +885,44 @@ pub fn clamp_huge_sorts(lines: &mut Vec<String>) -> bool {
     changed
 }
 
+/// The declared sort of a line whose sort is an ARRAY sort (write, ite, state, input, init, next, uext/sext by 0) is replaced by a
+/// different array sort; one is declared right before the line if the file has no other.
+pub fn mutate_array_sort(rng: &mut Rng, lines: &mut Vec<String>) -> &'static str {
+    let tl: Vec<Vec<String>> = lines.iter().map(|l| toks(l)).collect();
+    // array sorts: id -> (index sort id, element sort id)
+    let arr: Vec<(String, String, String)> =
+        tl.iter().filter(|t| t.len() > 4 && t[1] == "sort" && t[2] == "array").map(|t| (t[0].clone(), t[3].clone(), t[4].clone())).collect();
+    let bvs: Vec<String> = tl.iter().filter(|t| t.len() > 3 && t[1] == "sort" && t[2] == "bitvec").map(|t| t[0].clone()).collect();
+    if arr.is_empty() {
+        return "noop";
+    }
+    let cands: Vec<usize> = (0..tl.len()).filter(|i| tl[*i].len() > 2 && tl[*i][1] != "sort" && arr.iter().any(|a| a.0 == tl[*i][2])).collect();
+    if cands.is_empty() {
+        return "noop";
+    }
+    // prefer array-valued operator lines
+    let ops: Vec<usize> = cands.iter().copied().filter(|i| matches!(tl[*i][1].as_str(), "write" | "ite" | "uext" | "sext")).collect();
+    let li = if !ops.is_empty() && rng.chance(3, 4) { *rng.pick(&ops) } else { *rng.pick(&cands) };
+    let cur = tl[li][2].clone();
+    let (ci, cd) = arr.iter().find(|a| a.0 == cur).map(|a| (a.1.clone(), a.2.clone())).unwrap();
+    let others: Vec<String> = arr.iter().filter(|a| a.0 != cur && (a.1 != ci || a.2 != cd)).map(|a| a.0.clone()).collect();
+    let mut t = tl[li].clone();
+    if !others.is_empty() && rng.chance(2, 3) {
+        t[2] = rng.pick(&others).clone();
+        lines[li] = t.join(" ");
+    } else {
+        // a fresh array sort over existing bit-vector sorts that differs in the index or the element sort
+        let alt: Vec<&String> = bvs.iter().filter(|b| **b != cd).collect();
+        let alt_i: Vec<&String> = bvs.iter().filter(|b| **b != ci).collect();
+        let (ni, nd) = if !alt.is_empty() && (alt_i.is_empty() || rng.chance(1, 2)) { (ci.clone(), (*rng.pick(&alt)).clone()) } else if !alt_i.is_empty() { ((*rng.pick(&alt_i)).clone(), cd.clone()) } else { return "noop" };
+        let fresh = tl.iter().filter_map(|t| t.first().and_then(|x| x.parse::<u64>().ok())).max().unwrap_or(0) + 1;
+        t[2] = format!("{fresh}");
+        lines[li] = t.join(" ");
+        lines.insert(li, format!("{fresh} sort array {ni} {nd}"));
+    }
+    "array_sort"
+}
+
 fn width_variant(rng: &mut Rng, old: &str, sort_line: bool) -> String {
     let w: u64 = old.parse().unwrap_or(8);
     match rng.below(12) {
@@ -890,7 +958,23 @@ fn width_variant(rng: &mut Rng, old: &str, sort_line: bool) -> String {
 pub fn edge_template(rng: &mut Rng) -> (Vec<String>, &'static str) {
     let w = *rng.pick(&[1u64, 2, 7, 8, 32, 33, 64, 65, 128, 129]);
     let s = |x: &str| x.to_string();
-    let pick = rng.below(46);
+    let pick = rng.below(50);
+    if pick >= 46 {
+        // an array-valued line annotated with a different ARRAY sort (other element or index sort)
+        let (iw, dw) = (rng.range(1, 3), rng.range(2, 5));
+        let op = match rng.below(5) {
+            0 => s("10 write 4 6 7 8"),
+            1 => s("10 ite 4 9 6 6"),
+            2 => s("10 uext 4 6 0 alias"),
+            3 => format!("10 write {} 6 7 8", rng.pick(&["5", "4"])),
+            _ => s("10 ite 5 9 6 6"),
+        };
+        return (
+            vec![format!("1 sort bitvec {iw}"), format!("2 sort bitvec {dw}"), format!("3 sort bitvec {}", dw - 1), s("4 sort array 1 3"), s("5 sort array 1 2"),
+                 s("6 state 5 m"), s("7 input 1 i"), s("8 input 2 d"), s("30 sort bitvec 1"), s("9 input 30 c"), op, s("11 read 2 10 7"), s("12 output 11"), s("13 next 5 6 10")],
+            "array_sort_mismatch",
+        );
+    }
     if pick >= 44 {
         // extension of an array by 0 bits with the array sort as declared sort: accepted although uext/sext are bit-vector operators
         let (iw, dw) = (rng.range(1, 3), rng.range(1, 5));
@@ -1031,7 +1115,12 @@ pub fn edge_template(rng: &mut Rng) -> (Vec<String>, &'static str) {
         19 => (vec![format!("1 sort bitvec {w}"), s("2 input 1"), s("3 input 1"), format!("4 read 1 2 3")], "read_bv"),
         20 => (vec![s("1 sort bitvec 1"), format!("2 sort bitvec {}", w + 1), s("3 input 1"), s("4 input 2"), format!("5 ite 2 {} 4 {}", rng.pick(&["4", "3"]), rng.pick(&["3", "4"]))], "ite_mismatch"),
         21 => (vec![s("1 sort bitvec 1"), format!("2 sort bitvec {}", w + 1), s("3 input 1"), s("4 input 2"), format!("5 {} 1 {} {}", rng.pick(&["implies", "iff", "eq", "neq", "ugt", "ulte", "sgt", "slt"]), rng.pick(&["4", "3"]), rng.pick(&["3", "4"]))], "bool_mismatch"),
-        22 => (vec![format!("1 sort bitvec {w}"), s("2 sort array 1 1"), s("3 state 2 m"), s("4 input 1 d"), format!("5 {} 2 3 {}", rng.pick(&["init", "next"]), rng.pick(&["4", "-4", "3", "-3"]))], "array_init"),
+        22 => {
+            // the array-init shorthand: a bit-vector of the element sort, of another width, negated, an array, or via `next`
+            let wd = rng.pick(&["1", "7"]).to_string();
+            (vec![format!("1 sort bitvec {w}"), s("2 sort array 1 1"), s("3 state 2 m"), s("4 input 1 d"), format!("7 sort bitvec {}", w + 1), s("8 input 7 wide"), s("9 zero 7"),
+                  format!("5 {} 2 3 {}", rng.pick(&["init", "init", "next"]), rng.pick(&["4", "-4", "3", "-3", "8", "9", "-8"])), format!("6 sort array {wd} 1"), s("10 output 3")], "array_init")
+        }
         23 => (vec![format!("1 sort bitvec {w}"), s("2 state 1"), format!("3 {} 1 2 {}", rng.pick(&UNSUPPORTED), rng.pick(&["2", ""]))], "unsupported"),
         24 => (vec![format!("1 sort bitvec {w}"), s("2 state 1 s"), format!("3 {} 1 2 0 better", rng.pick(&["uext", "sext"])), s("4 next 1 2 3"), s("5 output 2 o")], "alias"),
         25 => (vec![s("1 sort bitvec 1"), s("2 state 1 s"), format!("3 {} 1 2 nice$name", rng.pick(&["redor", "redand", "redxor"])), s("4 next 1 2 -3"), s("5 bad 2")], "alias_red"),
